@@ -293,6 +293,15 @@ def _consistent(keys: List[Tuple], assignment: Dict[Tuple, bool]) -> bool:
                     # x + const == 0  =>  x + c2 <= 0  iff c2 - const <= 0
                     if (c2 - const <= 0) != v2:
                         return False
+    # integer tightness: x + c <= 0 and not (x + c + 1 <= 0)  <=>  x + c == 0
+    for k in keys:
+        if k[0] == "eq":
+            terms, const = k[1]
+            l0 = [v for (t, c, v) in les if t == terms and c == const]
+            l1 = [v for (t, c, v) in les if t == terms and c == const + 1]
+            if l0 and l1:
+                if assignment[k] != (l0[0] and not l1[0]):
+                    return False
     return True
 
 
